@@ -341,7 +341,8 @@ MODS = ["none", "ignore_result", "force_local"]
     bounds="%d representative result values (every documented type; True/1/1.0; empty str/bytes/list/dict; NaN; non-ASCII; date vs "
            "midnight datetime vs pd.Timestamp; every array dtype, empty and 2-d; index/series/frames; partition; a frame larger than the 4 KiB "
            "cache) x {memory, fs, fs+cache 4 KiB, fs+cache 1 MiB} x {none, ignore_result, force_local} with the script call, call, "
-           "memento(), forget, call" % len(VALUES),
+           "memento(), forget, call, then forget_all / forget_cluster / forget_everything / forget each followed by call, read of the stored "
+           "value, call" % len(VALUES),
     variables="choice: value index, store, modifier",
     budget_s={"quick": 170, "thorough": 600},
     choice_vars=3,
@@ -407,6 +408,32 @@ def roundtrip(vi: int, mod: int, store: int, vi0: int):
             check("forget-makes-exactly-that-call-run-again", len(prog.trace) == 3, len(prog.trace))
             g(1)
             check("and-memoized-again", len(prog.trace) == 3, len(prog.trace))
+            # every way of forgetting, each followed by a fresh computation of the same bytes and a read of what the store now holds
+            n = 3
+            for how in ("forget_all", "forget_cluster", "forget_everything", "forget"):
+                if how == "forget_all":
+                    f.forget_all()
+                elif how == "forget_cluster":
+                    m.forget_cluster(f.cluster_name)
+                elif how == "forget_everything":
+                    sb.storage().forget_everything()
+                else:
+                    f.forget(1)
+                check("forgotten-by-" + how, f.memento(1) is None, None)
+                g(1)
+                n += 1
+                check(how + "-makes-the-call-run-again", len(prog.trace) == n, len(prog.trace))
+                mem2 = f.memento(1)
+                check(how + "-then-memoized-again", mem2 is not None, None)
+                back2 = sb.storage().read_result(mem2)
+                if is_part:
+                    check(how + "-then-stored-value-readable-and-equal", equal_typed(partition_contents(back2), partition_contents(unmemoized)), None)
+                else:
+                    check(how + "-then-stored-value-readable-and-equal", equal_typed(back2, unmemoized), (name, repr(back2)[:100]))
+                r4 = f(1)
+                check(how + "-then-hit", len(prog.trace) == n, len(prog.trace))
+                if not is_part:
+                    check(how + "-then-hit-value-equal", equal_typed(r4, unmemoized), (name, repr(r4)[:100]))
         finally:
             prog.close()
             sb.close()
